@@ -820,8 +820,8 @@ class Gen:
         n_defs = n_defs if n_defs is not None else self.r.range(1, 5)
         names = [self.fresh("type") for _ in range(n_defs)]
         # a definition may refer to EARLIER definitions only: reference cycles (`A ::= A`, A -> B -> A)
-        # are not legal ASN.1 and make the real resolver/converter overflow its stack — that is
-        # property C14's domain (finding class front.cyclic_reference), not C07/C12's
+        # are not legal ASN.1 (they used to make the real resolver/converter overflow its stack:
+        # repaired) — that is property C14's domain, not C07/C12's
         base = list(self.type_names)
         defs = []
         for idx, nm in enumerate(names):
